@@ -33,6 +33,7 @@ import EvalFilter.Model.Api
 import EvalFilter.Props.Tables
 import EvalFilter.Proofs.OptWindows
 import EvalFilter.Proofs.OptSim8
+import EvalFilter.Proofs.NoOof
 
 namespace EvalFilter.Props.C03
 open EvalFilter EvalFilter.VM
@@ -271,6 +272,57 @@ theorem C03_optimizer_adds_no_finished_runs (c : Compiled) (fns : List (Str × F
   rw [e] at hend ⊢
   obtain ⟨f, h1, h2, h3, _⟩ := href f' st st' ⟨hst.1, hst.2.1, hst.2.2, fun e => by cases e⟩ hend
   exact ⟨f, h1, h3, h2⟩
+
+open EvalFilter.Compiler EvalFilter.Exec in
+/-- **The optimised program computes the language's semantics too.**  For every script of assignments,
+    if / else, while, foreach and return over value-producing expressions (C02's end-to-end theorem) whose
+    optimisation validates: the run of the OPTIMISED program ends with the result, the output and the global
+    variables the big-step semantics prescribes. -/
+theorem C03_optimised_program_correct (prog : Program) (hp : pureSs prog = true) (hne : prog ≠ []) (c : Compiled)
+    (hc : compileProgram prog = .ok c) (hv : validated c = true) (fns : List (Str × FnImpl)) (obj : HostVal) (env : Env) (out : Str)
+    (f : Nat)
+    (hnd : execSs (Api.newMachine c false fns (fun _ => false)) obj f prog env out ≠ .diverged) :
+    ∃ f', match programResult 0 0 (execSs (Api.newMachine c false fns (fun _ => false)) obj f prog env out) with
+      | some (r, s) =>
+        (run (Api.newMachine c true fns (fun _ => false)) obj f' ⟨env, out, 0, 0⟩).1 = r ∧
+        (run (Api.newMachine c true fns (fun _ => false)) obj f' ⟨env, out, 0, 0⟩).2.out = s.out ∧
+        (run (Api.newMachine c true fns (fun _ => false)) obj f' ⟨env, out, 0, 0⟩).2.env.globals = s.env.globals
+      | none => True := by
+  have hclean : ∀ r s, programResult 0 0 (execSs (Api.newMachine c false fns (fun _ => false)) obj f prog env out) = some (r, s) →
+      r ≠ .error .outOfFuel := by
+    intro r s hprs
+    revert hprs
+    cases hx : execSs (Api.newMachine c false fns (fun _ => false)) obj f prog env out with
+    | normal a b => simp only [programResult, Option.some.injEq, Prod.mk.injEq]; intro h; rw [← h.1]; simp
+    | returned v a b => simp only [programResult, Option.some.injEq, Prod.mk.injEq]; intro h; rw [← h.1]; simp
+    | diverged => simp [programResult]
+    | failed e a b =>
+      simp only [programResult, Option.some.injEq, Prod.mk.injEq]
+      intro h; rw [← h.1]
+      have := (exec_noof _ obj f).Ss _ _ _ _ _ _ hx
+      simpa [NotOof] using this
+  obtain ⟨n, k, h⟩ := program_correct prog hp hne c hc fns obj env out 0 0 f hnd
+  obtain ⟨st', hrun, hres⟩ := h 0
+  cases hpr : programResult 0 0 (execSs (Api.newMachine c false fns (fun _ => false)) obj f prog env out) with
+  | none => exact ⟨0, trivial⟩
+  | some p =>
+    obtain ⟨r, s⟩ := p
+    have hpr' : programResult (0 + k) 0 (execSs (Api.newMachine c false fns (fun _ => false)) obj f prog env out) =
+        some (r, { s with polls := 0 + k }) := by
+      revert hpr
+      cases execSs (Api.newMachine c false fns (fun _ => false)) obj f prog env out <;>
+        simp [programResult] <;> intro h1 h2 <;> subst h1 <;> subst h2 <;> simp
+    rw [hpr'] at hres
+    simp only at hres
+    obtain ⟨h1, h2, h3, _⟩ := hres
+    have hend : (run (Api.newMachine c false fns (fun _ => false)) obj (0 + n) ⟨env, out, 0, 0⟩).1 ≠ .error .outOfFuel := by
+      rw [hrun, h1]; exact hclean r s hpr
+    obtain ⟨f', g1, g2, g3⟩ := C03_optimizer_preserves_finished_runs c fns obj hv (0 + n) ⟨env, out, 0, 0⟩ ⟨env, out, 0, 0⟩
+      ⟨rfl, rfl, rfl⟩ hend
+    refine ⟨f', ?_, ?_, ?_⟩
+    · rw [g1, hrun, h1]
+    · rw [g2, hrun, h2]
+    · rw [g3, hrun, h3]
 
 /-- the validator accepts real programs: `x = 1 + 2 * 3; if (true) { x = x + 1; } if (1 == 2) { x = 0; } return x;`
     compiled by the model compiler optimises in validated steps -/
